@@ -93,6 +93,61 @@ func (x *Exec) finishUnit(u *Unit, t0 time.Time) *Unit {
 	return u
 }
 
+// verifyWriters checks a frame contract on a memory key: every repository function whose body
+// contains a write to the key (not counting writes into objects that invocation allocated) must
+// be on the allow list. One obligation per writing function.
+func verifyWriters(p *Prog, db *ContractDB, w *WritersSpec) *Unit {
+	t0 := time.Now()
+	u := &Unit{Kind: "writers", Name: "writers:" + shortKey(w.Key), Props: w.Props, Pos: w.File}
+	x := newExec(p, db)
+	x.top = &ssa.Function{}
+	allowed := map[*ssa.Function]bool{}
+	for _, a := range w.Allow {
+		fn := p.lookupFunc(expandModRel(a), w.Pkg)
+		if fn == nil {
+			o := &Obl{Name: fmt.Sprintf("%s/contract-shape:allowed-function-exists(%s)", u.Name, a), Kind: "contract-shape", Reach: "true", Goal: "false", Pos: w.File, Text: "function on the allow list exists", Fn: u.Name}
+			x.vc.obls = append(x.vc.obls, o)
+			continue
+		}
+		allowed[fn] = true
+	}
+	var names []string
+	byName := map[string]*ssa.Function{}
+	for _, fn := range p.AllFuncs {
+		if fn.Blocks == nil || !p.effects.isRepoFn(fn) {
+			continue
+		}
+		d := p.effects.direct[fn]
+		hit := d[w.Key]
+		if !hit && strings.HasPrefix(w.Key, "M|") {
+			hit = d[w.Key+"#has"] || d[w.Key+"#val"]
+		}
+		if hit {
+			n := shortFn(fn)
+			if _, dup := byName[n]; !dup {
+				names = append(names, n)
+			}
+			byName[n] = fn
+		}
+	}
+	sort.Strings(names)
+	for _, n := range names {
+		fn := byName[n]
+		goal := "false"
+		if allowed[fn] || allowed[outermost(fn)] {
+			goal = "true"
+		}
+		o := &Obl{Name: fmt.Sprintf("%s/only-listed-functions-write(%s)", u.Name, n), Kind: "contract-shape", Reach: "true", Goal: goal, Pos: p.pos(fn.Pos()), Text: "function writing " + w.Key + " is on the allow list", Fn: u.Name}
+		x.vc.obls = append(x.vc.obls, o)
+	}
+	if len(names) == 0 {
+		// nothing writes the key: the contract is vacuous – say so loudly
+		o := &Obl{Name: fmt.Sprintf("%s/contract-shape:key-is-written-somewhere", u.Name), Kind: "contract-shape", Reach: "true", Goal: "false", Pos: w.File, Text: "the framed key is written by some function", Fn: u.Name}
+		x.vc.obls = append(x.vc.obls, o)
+	}
+	return x.finishUnit(u, t0)
+}
+
 // verifyFunc checks a function against its contract.
 func verifyFunc(p *Prog, db *ContractDB, fc *FuncContract, prop string) (u *Unit) {
 	t0 := time.Now()
@@ -184,6 +239,7 @@ func verifyFunc(p *Prog, db *ContractDB, fc *FuncContract, prop string) (u *Unit
 	}
 	x.reachOf(st)
 	fr.entry = st.clone()
+	fr.entry.objN = x.objCtr
 	exit, res := x.execFunc(fr, st)
 	if exit == nil {
 		x.addObl(fr.entry, "vacuity", fmt.Sprintf("%s/vacuity:returns", shortFn(fn)), "false", fc.File, "some return is reachable").MustSat = true
@@ -266,6 +322,7 @@ func sweepFunc(p *Prog, db *ContractDB, fn *ssa.Function, prop string, sweepSet 
 		}
 	}
 	fr.entry = st.clone()
+	fr.entry.objN = x.objCtr
 	x.execFunc(fr, st)
 	return x.finishUnit(u, t0)
 }
